@@ -12,11 +12,11 @@ rsync -a --exclude .cache --exclude 'lean/.lake' --exclude 'harness/target' --ex
 grep -rlI "$D" "$S" | while read f; do sed -i "s#$D/repo#/repo#g; s#$D/verif#/verif#g" "$f"; done
 (cd "$S" && find . -type f -not -path './.cache/*' -not -path './lean/.lake/*' -not -path './evidence/*' \
    -not -path './harness/target/*' -not -name Cargo.lock -not -name MANIFEST.json | sed 's#^\./##') | while read f; do
-  if [ ! -e "$TMP/$f" ]; then
+  if [ "$f" = known_findings.json ] || [ "$f" = tools/BUILDER_GUIDE.md ] || [ "$f" = tools/extract.py ]; then echo "skip  $f (merge by hand)"; elif [ ! -e "$TMP/$f" ]; then
     mkdir -p "$(dirname "$f")"; cp "$S/$f" "$f"; echo "new   $f"
   elif ! cmp -s "$TMP/$f" "$S/$f"; then
     case "$f" in
-      props.json) echo "skip  $f (merge by key)";;
+      props.json|known_findings.json) echo "skip  $f (merge by key)";;
       harness/Cargo.toml) diff -u "$TMP/$f" "$S/$f" | grep '^[+-]' | grep -v '^[+-][+-]' | grep -v 'path = "/' | sed 's/^/cargo: /';;
       *) if diff -u "$TMP/$f" "$S/$f" | patch -p0 --no-backup-if-mismatch "$f" >/dev/null; then echo "patch $f"; else echo "FAILED patch $f"; fi;;
     esac
